@@ -39,6 +39,41 @@ def _uncacheable_gets_no_store(ex, st, post, result):
            'make_conditional is evaluated after the validators are set')
 
 
+def _handler_protocol(ex, st, post, result):
+    """C16 / C10: a tile is rendered only after the request was checked and authorized for THIS layer, and the limit handed
+    to the renderer is the one the authorization returned (added after the mutation audit)"""
+    import z3
+    renders = [(i, e) for i, e in T.evs(st, 'render')]
+    if not renders:
+        return
+    i_r, r = renders[0]
+    chk = [(i, e) for i, e in T.evs(st, 'check_request', 'layer', 'TileServer.layer', 'KMLServer.layer')]
+    dim = [(i, e) for i, e in T.evs(st, 'check_request_dimensions')]
+    auth = [(i, e) for i, e in enumerate(st.trace) if e.name.endswith('authorize_tile_layer')]
+    req = None
+    for name in ('request', 'tile_request', 'map_request'):
+        if name in post.env:
+            req = post.env[name]
+    goal = z3.BoolVal(len(renders) == 1 and bool(chk) and chk[0][0] < i_r and any(a is req for a in r.args))
+    layer = r.recv
+    if 'request' in post.env:
+        # WMTS: the dimension values are checked by the service before rendering (RESTful: unknown dimensions are refused)
+        goal = z3.And(goal, z3.BoolVal(len(dim) == 1))
+    if 'tile_request' not in post.env:
+        goal = z3.And(goal, z3.BoolVal(len(auth) == 1))     # (the TMS server authorizes inside self.layer())
+    for i, e in dim:
+        goal = z3.And(goal, z3.BoolVal(i < i_r and len(e.args) >= 2 and e.args[-1] is req and layer is not None
+                                       and hasattr(e.args[-2], 't') and e.args[-2].t.eq(layer.t)))
+    for i, e in auth:
+        ok = i < i_r and len(e.args) >= 2 and e.args[-1] is req and layer is not None and hasattr(e.args[-2], 't') \
+            and e.args[-2].t.eq(layer.t) and r.kwargs.get('coverage') is e.result
+        goal = z3.And(goal, z3.BoolVal(bool(ok)))
+    yield ('render_after_checks_for_this_layer', goal,
+           'the request is validated (check_request / layer lookup) before the one render call; dimension check and '
+           'authorization are made for the layer that is rendered and the very request; render(coverage=<what the '
+           'authorization returned>)')
+
+
 SVC_FIELDS = {'cacheable': 'bool', 'timestamp': 'opt[real]', 'size': 'opt[int]'}
 SVC_SPEC = {'render': {'raises': ['RequestError'], 'returns': 'opaque'}, 'Response': {'pure': True},
             'layer': {'raises': ['RequestError']}, 'authorize_tile_layer': {'raises': ['RequestError']},
@@ -54,7 +89,7 @@ for key, arg in (('mapproxy.service.tile:TileServer.map', 'tile_request'),
     contract(key, props=['C20'], types={arg: 'opaque'}, returns='opaque', default_callee='opaque', opaque=['Response'],
              opaque_fields=SVC_FIELDS, stable_fields=['cacheable', 'timestamp', 'size'],
              opaque_spec=dict(SVC_SPEC, layer={'raises': ['RequestError'], 'returns': 'tuple[opaque,opt[opaque]]'}) if key.endswith('TileServer.map') else SVC_SPEC,
-             raises={'RequestError': True}, trace=[_uncacheable_gets_no_store])
+             raises={'RequestError': True}, trace=[_uncacheable_gets_no_store, _handler_protocol])
 
 
 # ---- Response.make_conditional / cache_headers -------------------------------------------------------------------------
